@@ -1,6 +1,7 @@
 import WhatIs.Model.Asn1Struct
 import WhatIs.Spec.DerInt
 import WhatIs.Lemmas.Asn1Struct
+import WhatIs.Model.DerRoute
 /-
   Props/DerKeys.lean — PROPERTY THEOREMS about the recognisers of the INTEGER-only key structures, from the BYTES:
   the X.690 encoding of an RSAPublicKey / traditional DSA private key (Spec/DerInt.lean) goes through the concrete model
@@ -122,6 +123,25 @@ theorem pkcs1priv_other_counts_rejected (ks : List Tlv) (hw : Wf (.cons 0 16 ks)
     simp only [Option.some.injEq] at this
     omega
   · rfl
+
+/-- THE SAME KEY AS PEM AND AS DER (C05), from the bytes: with the concrete recogniser in the place of the oracle
+    parameter for PKCS#1 public keys, the block `RSA PUBLIC KEY` and the raw DER of SEQUENCE { n, e } get the same
+    description — the DER route under the only assumption that the three library parsers tried before it (certificate,
+    PKCS#8, SubjectPublicKeyInfo) refuse a SEQUENCE of two INTEGERs -/
+theorem rsa_public_key_pem_eq_der (acc : DerRoute.DerType → Bytes → Option Info) (n e : Nat) (hn : 0 < n) (he : 0 < e)
+    (hl : (encList [intTlv n, intTlv e]).length < 2147483648)
+    (hacc : ∀ d, acc .pkcs1pub d = pkcs1Pub d)
+    (h1 : acc .cert (enc (rsaPublicKey n e)) = none) (h2 : acc .pkcs8 (enc (rsaPublicKey n e)) = none)
+    (h3 : acc .pkix (enc (rsaPublicKey n e)) = none) :
+    DerRoute.pemBlockRoute acc (strBytes "RSA PUBLIC KEY") (enc (rsaPublicKey n e)) =
+        .mk (strBytes "PKCS#1 public key") [⟨sb "Algorithm", algName "RSA"⟩, sizeAttr (bitLen n)] [] ∧
+    DerRoute.derRoute acc (enc (rsaPublicKey n e)) =
+        some (.mk (strBytes "PKCS#1 public key") [⟨sb "Algorithm", algName "RSA"⟩, sizeAttr (bitLen n)] []) := by
+  have hk := pkcs1pub_from_der n e hn he hl
+  constructor
+  · have hlab : DerRoute.labelType (strBytes "RSA PUBLIC KEY") = some .pkcs1pub := by decide
+    simp only [DerRoute.pemBlockRoute, DerRoute.pemBlockRouteB, hlab, hacc, hk, Option.getD_some]
+  · simp only [DerRoute.derRoute, DerRoute.trialOrder, List.findSome?_cons, h1, h2, h3, hacc, hk]
 
 -- non-vacuity: a concrete key goes through the model as the theorem says -----------------------------
 example : pkcs1Pub (enc (rsaPublicKey 0xC5A7 65537)) =
